@@ -613,6 +613,10 @@ def trimmed_copy(lib):
 
 
 # ---------------------------------------------------------------- fixed-form extras: default arguments, templates, array results
+# arguments of getlbl/getlbl2: the empty result, a short one, and one that fills the caller's 12 characters exactly
+LBL_IV = {"getlbl": (0, 3, 1234567), "getlbl2": (0, 3, 123456789)}
+
+
 def specials(rng):
     """declarations with default arguments (function, method, constructor-free), a function template with two instantiations and
     array results (allocatable rank 1 and 2, pointer rank 1).  Returns dict(decls, mdecls, hpp, hmeth, cpp, direct, c, f_decl, f_body)."""
@@ -775,7 +779,7 @@ def specials(rng):
     direct += ["    }"]
     cdrv += ["    }"]
     for fn in ("getlbl", "getlbl2"):
-        for iv in (0, 3):
+        for iv in LBL_IV[fn]:
             direct += ["    { std::string sp_r = %s(%d); eq_begin(\"%s_%d\"); eq_str(sp_r.data(), (int)sp_r.size()); eq_end(); }" % (fn, iv, fn, iv)]
             cdrv += ["    { char sp_b[12]; std::memset(sp_b, '#', 12); EQ_%s_bufferify(%d, sp_b, 12); int sp_m = 12; while (sp_m > 0 && sp_b[sp_m-1] == ' ') --sp_m;" % (fn, iv),
                      "      eq_begin(\"%s_%d\"); eq_str(sp_b, sp_m); eq_end(); }" % (fn, iv)]
@@ -853,9 +857,9 @@ def specials(rng):
         fbody += ["    call vgrow(sp_vg, %d_C_INT)" % ex, "    call eq_begin(\"%s\"//C_NULL_CHAR)" % tag, "    call eq_int(int(size(sp_vg), C_LONG))",
                   "    do sp_i = 1, size(sp_vg)", "        call eq_int(int(sp_vg(sp_i), C_LONG))", "    end do", "    call eq_end()"]
     fdecl += ["    character(len=12) :: sp_s"]
-    for iv in (0, 3):
+    for iv in LBL_IV["getlbl"]:
         fbody += ["    sp_s = '############'", "    sp_s = getlbl(%d_C_INT)" % iv] + fshow("getlbl_%d" % iv, "call eq_str(sp_s, len_trim(sp_s, kind=C_INT))")
-    for iv in (0, 3):
+    for iv in LBL_IV["getlbl2"]:
         fbody += ["    sp_s = '############'", "    call getlbl2(%d_C_INT, sp_s)" % iv] + fshow("getlbl2_%d" % iv, "call eq_str(sp_s, len_trim(sp_s, kind=C_INT))")
     fbody += ["    call put(8_C_INT)", "    call put(1.5_C_DOUBLE)"] + fshow("put", "continue")
     fdecl += ["    integer(C_INT) :: sp_buf(10)"]
